@@ -6,4 +6,17 @@ missing = [t for t in need if shutil.which(t) is None]
 if missing:
     print('missing tools: ' + ' '.join(missing)); sys.exit(1)
 print(subprocess.run(['cbmc', '--version'], capture_output=True, text=True).stdout.strip())
-print('setup ok')
+
+# rule-oracle self-validation against published perft counts (no engine code involved)
+import os, tempfile
+V = os.path.dirname(os.path.dirname(os.path.abspath(__file__)))
+with tempfile.TemporaryDirectory() as td:
+    exe = os.path.join(td, 'ost')
+    p = subprocess.run(['gcc', '-O2', '-I', os.path.join(V, 'spec'), os.path.join(V, 'tools', 'oracle_selftest.c'), '-o', exe], capture_output=True, text=True)
+    if p.returncode != 0:
+        print('oracle self-test build failed', p.stderr[-800:]); sys.exit(1)
+    q = subprocess.run([exe], capture_output=True, text=True)
+    print(q.stdout.strip())
+    if q.returncode != 0:
+        print('ORACLE SELF-TEST FAILED'); sys.exit(1)
+print('oracle self-test ok')
